@@ -216,6 +216,21 @@ pub broadcast axiom fn ax_c11_typed_vector_y(s: Vector2) ensures #[trigger] s.y 
 pub broadcast axiom fn ax_c11_typed_ball(s: Ball) ensures #[trigger] s.radius == f64_typed(s, 0);
 pub broadcast group c11_typing { ax_c11_typed_point_x, ax_c11_typed_point_y, ax_c11_typed_vector_x, ax_c11_typed_vector_y, ax_c11_typed_ball }
 
-// parry Aabb (opaque here: bounding boxes are not under contract) and Ball::new
-#[verifier::external_body] #[derive(Clone, Copy)] pub struct Aabb2 { _a: [f64; 4] }
+// parry Aabb (mins / maxs corners, Aabb::new stores them) and Ball::new
+#[derive(Clone, Copy)] pub struct Aabb2 { pub mins: Point2, pub maxs: Point2 }
+impl Aabb2 { pub fn new(mins: Point2, maxs: Point2) -> (r: Aabb2) ensures r.mins == mins, r.maxs == maxs { Aabb2 { mins, maxs } } }
+impl<'a> SubSpecImpl<Vector2> for &'a Point2 {
+    open spec fn obeys_sub_spec() -> bool { true }
+    open spec fn sub_req(self, rhs: Vector2) -> bool { true }
+    open spec fn sub_spec(self, rhs: Vector2) -> Point2 { p_subv(*self, rhs) }
+}
+impl<'a> core::ops::Sub<Vector2> for &'a Point2 { type Output = Point2;
+    #[verifier::external_body] fn sub(self, rhs: Vector2) -> (r: Point2) { unimplemented!() } }
+impl<'a> AddSpecImpl<Vector2> for &'a Point2 {
+    open spec fn obeys_add_spec() -> bool { true }
+    open spec fn add_req(self, rhs: Vector2) -> bool { true }
+    open spec fn add_spec(self, rhs: Vector2) -> Point2 { p_add(*self, rhs) }
+}
+impl<'a> core::ops::Add<Vector2> for &'a Point2 { type Output = Point2;
+    #[verifier::external_body] fn add(self, rhs: Vector2) -> (r: Point2) { unimplemented!() } }
 impl Ball { pub fn new(radius: f64) -> (r: Ball) ensures r.radius == radius { Ball { radius } } }
